@@ -82,7 +82,7 @@ func (Prop) Rule() string {
 		"ber2der (reached through go:linkname): output == input for every DER artefact generated above (incl. 70000-byte content for 3-byte lengths); all-indefinite, all-long-form(0x81 nn for lengths 1..127) and combined BER re-encodings normalise to the DER artefact and parse/verify/decrypt identically. " +
 		"Quick tier = the same oracles on a sub-product (thorough = the full product above in both builds): EnvelopedData lengths {1,15,16,1000} only through pkcs7.Encrypt with SM2/mixed recipients; SignedAndEnvelopedData non-SM pairs on {all ciphers x len 17 for SHA256-RSA; AES128-CBC, AES256-GCM, 3DES-CBC x len {0,17} for all pairs} x (signers,recipients) in {1x1,2x2,3x3,1x3,3x1}; " +
 		"E3 seeds quick: SignedData len 17, 6 modes x {SM3-SM2, SHA256-RSA, SHA256-ECDSA} x 1 signer + 2 signers for attached/noattr-attached (SM2, ECDSA) + chained signer; EnvelopedData SM2 recipient x 12 ciphers, legacy/SKI producers x SM4-{CBC,GCM,ECB}, 2 recipients, one RSA recipient; EncryptedData 2 producers x 12 ciphers; SignedAndEnvelopedData 3 seeds; cfca 3 seeds; trust-store verification of a mutant only when its plain verification succeeds; the c-purego workers run only the cases that execute SM2/SM3/SM4 code. " +
-		"Thorough E3 seeds: SignedData 9 pairs x 6 modes x {1,2,3 signers} at len 17 + single-signer len 0, both verifications on every mutant; EnvelopedData + every cipher x {EncryptSM 2 recipients, EncryptCFCA, EnvelopeMessageCFCA mixed SM2+RSA+SM2}, RSA seeds; 9 SignedAndEnvelopedData seeds. " +
+		"Thorough E3 seeds: SignedData 9 pairs x 6 modes x {1,2 signers} + 3 signers for one pair per key family, at len 17, + single-signer len 0, both verifications on every mutant; EnvelopedData + every cipher x {EncryptSM 2 recipients, EncryptCFCA, EnvelopeMessageCFCA mixed SM2+RSA+SM2}, RSA seeds; 9 SignedAndEnvelopedData seeds. " +
 		"distinct_nontrivial counts distinct verified shapes (shape x trust x encoding style) plus distinct (mode, mutation class) cells in which a mutant still verified/opened."
 }
 
@@ -295,6 +295,9 @@ func (Prop) Run(c *engine.Ctx) {
 						}
 						if n == 0 && (len(set) != 1 || m.digest) {
 							continue // empty content: single signer, content-carrying / detached modes
+						}
+						if len(set) == 3 && !(p.name == "SM3-SM2" || p.name == "SHA256-RSA" || p.name == "SHA256-ECDSA") {
+							continue // three signers (incl. the chained one): one pair per key family
 						}
 						seeds = append(seeds, e3Seed{p, m, n, set})
 					}
